@@ -455,10 +455,12 @@ class HybridLoad:
             # calculate the average value for the month
             if ipf[i]:
                 current_year = self.years[0] if len(self.years) <= 1 else self.years[(i - 1) // 12]
+                # only the pulses that are emitted below (non-zero monthly peak) shorten the period
+                # over which the remaining load is averaged
                 month_duration = (
                     monthdays(i, current_year) * HRS_IN_DAY
-                    - self.monthly_peak_cl_duration[i]
-                    - self.monthly_peak_hl_duration[i]
+                    - (self.monthly_peak_cl_duration[i] if self.monthly_peak_cl[i] > 0 else 0.0)
+                    - (self.monthly_peak_hl_duration[i] if self.monthly_peak_hl[i] > 0 else 0.0)
                 )
                 # gives htg load pk energy in kWh
                 month_peak_hl = self.monthly_peak_hl[i] * self.monthly_peak_hl_duration[i]
